@@ -218,3 +218,132 @@ package stanza
 //@ func (stanza.StanzaType).IsEmpty(s) (b)
 //@   ensures b == blank(s)
 //@ globalinv IqTypeUnset != nil
+
+// ---------------------------------------------------------------------------
+// C02: every hand-written UnmarshalXML consumes exactly its own element, for whatever content
+//
+// The registry look-ups use reflection (outside the verified subset): their contracts are assumed (a fresh instance
+// of a registered type, or nil).
+//@ func (*stanza.registry).GetMsgExtension(r, name) (ext)
+//@   bounded
+//@   ensures ext != nil ==> fresh(ext)
+//@ func (*stanza.registry).GetPresExtension(r, name) (ext)
+//@   bounded
+//@   ensures ext != nil ==> fresh(ext)
+//@ func (*stanza.registry).GetIQExtension(r, name) (ext)
+//@   bounded
+//@   ensures ext != nil ==> fresh(ext)
+//
+//@ pred atElement(d, start) := d != nil && depth(d) >= 1 && openNames(d)[depth(d)] == start.Name && remaining(d) >= 0
+//@ pred consumed(d) := depth(d) == old(depth(d)) - 1 && lowerNamesKept(d)
+//@ pred inElement(d, start) := depth(d) == old(depth(d)) && openNames(d)[depth(d)] == start.Name && lowerNamesKept(d)
+//
+//@ func (*stanza.Message).UnmarshalXML(msg, d, start) (err)
+//@   requires msg != nil && atElement(d, start)
+//@   ensures [C02.consume.message] err == nil ==> consumed(d)
+//@   ensures [C02.total.message]   err != nil ==> count(DecodeFailed) > old(count(DecodeFailed))
+//@   assigns *msg, depth(d), openNames(d), remaining(d)
+//@   emits TokenRead, DecodedElement, DecodeFailed
+//@   loop 1:
+//@     invariant 0 <= $i && $i <= len(start.Attr)
+//@     decreases len(start.Attr) - $i
+//@   loop 2:
+//@     invariant [C02.consume.message] depth(d) == old(depth(d))
+//@     invariant [C02.consume.message] openNames(d)[depth(d)] == start.Name
+//@     invariant [C02.consume.message] lowerNamesKept(d)
+//@     invariant [C02.total.message] count(DecodeFailed) == old(count(DecodeFailed))
+//@     invariant remaining(d) >= 0
+//@     decreases remaining(d)
+//
+//@ func (*stanza.Presence).UnmarshalXML(x, d, start) (err)
+//@   requires x != nil && atElement(d, start)
+//@   ensures [C02.consume.presence] err == nil ==> consumed(d)
+//@   ensures [C02.total.presence]   err != nil ==> count(DecodeFailed) > old(count(DecodeFailed))
+//@   assigns *x, depth(d), openNames(d), remaining(d)
+//@   emits TokenRead, DecodedElement, DecodeFailed
+//@   loop 1:
+//@     invariant 0 <= $i && $i <= len(start.Attr)
+//@     decreases len(start.Attr) - $i
+//@   loop 2:
+//@     invariant [C02.consume.presence] depth(d) == old(depth(d))
+//@     invariant [C02.consume.presence] openNames(d)[depth(d)] == start.Name
+//@     invariant [C02.consume.presence] lowerNamesKept(d)
+//@     invariant [C02.total.presence] count(DecodeFailed) == old(count(DecodeFailed))
+//@     invariant remaining(d) >= 0
+//@     decreases remaining(d)
+//
+//@ func (*stanza.IQ).UnmarshalXML(x, d, start) (err)
+//@   requires x != nil && atElement(d, start)
+//@   ensures [C02.consume.iq] err == nil ==> consumed(d)
+//@   ensures [C02.total.iq]   err != nil ==> count(DecodeFailed) > old(count(DecodeFailed))
+//@   assigns *x, depth(d), openNames(d), remaining(d)
+//@   emits TokenRead, DecodedElement, DecodeFailed
+//@   loop 1:
+//@     invariant 0 <= $i && $i <= len(start.Attr)
+//@     decreases len(start.Attr) - $i
+//@   loop 2:
+//@     invariant [C02.consume.iq] depth(d) == old(depth(d))
+//@     invariant [C02.consume.iq] openNames(d)[depth(d)] == start.Name
+//@     invariant [C02.consume.iq] lowerNamesKept(d)
+//@     invariant [C02.total.iq] count(DecodeFailed) == old(count(DecodeFailed))
+//@     invariant remaining(d) >= 0
+//@     decreases remaining(d)
+//
+//@ func (*stanza.Err).UnmarshalXML(x, d, start) (err)
+//@   requires x != nil && atElement(d, start)
+//@   ensures [C02.consume.err] err == nil ==> consumed(d)
+//@   ensures [C02.total.err]   err != nil ==> count(DecodeFailed) > old(count(DecodeFailed))
+//@   assigns *x, depth(d), openNames(d), remaining(d)
+//@   emits TokenRead, DecodedElement, DecodeFailed
+//@   loop 1:
+//@     invariant 0 <= $i && $i <= len(start.Attr)
+//@     decreases len(start.Attr) - $i
+//@   loop 2:
+//@     invariant [C02.consume.err] depth(d) == old(depth(d))
+//@     invariant [C02.consume.err] openNames(d)[depth(d)] == start.Name
+//@     invariant [C02.consume.err] lowerNamesKept(d)
+//@     invariant [C02.total.err] count(DecodeFailed) == old(count(DecodeFailed))
+//@     invariant remaining(d) >= 0
+//@     decreases remaining(d)
+//
+//@ func (*stanza.TlsStartTLS).UnmarshalXML(x, d, start) (err)
+//@   requires x != nil && atElement(d, start)
+//@   ensures [C02.consume.starttls] err == nil ==> consumed(d)
+//@   ensures [C02.total.starttls]   err != nil ==> count(DecodeFailed) > old(count(DecodeFailed))
+//@   assigns *x, depth(d), openNames(d), remaining(d)
+//@   emits TokenRead, DecodedElement, DecodeFailed
+//@   loop 1:
+//@     invariant [C02.consume.starttls] depth(d) == old(depth(d))
+//@     invariant [C02.consume.starttls] openNames(d)[depth(d)] == start.Name
+//@     invariant [C02.consume.starttls] lowerNamesKept(d)
+//@     invariant [C02.total.starttls] count(DecodeFailed) == old(count(DecodeFailed))
+//@     invariant remaining(d) >= 0
+//@     decreases remaining(d)
+//
+//@ func (*stanza.SMFailed).UnmarshalXML(x, d, start) (err)
+//@   requires x != nil && atElement(d, start)
+//@   ensures [C02.consume.smfailed] err == nil ==> consumed(d)
+//@   ensures [C02.total.smfailed]   err != nil ==> count(DecodeFailed) > old(count(DecodeFailed))
+//@   assigns *x, depth(d), openNames(d), remaining(d)
+//@   emits TokenRead, DecodedElement, DecodeFailed
+//@   loop 1:
+//@     invariant [C02.consume.smfailed] depth(d) == old(depth(d))
+//@     invariant [C02.consume.smfailed] openNames(d)[depth(d)] == start.Name
+//@     invariant [C02.consume.smfailed] lowerNamesKept(d)
+//@     invariant [C02.total.smfailed] count(DecodeFailed) == old(count(DecodeFailed))
+//@     invariant remaining(d) >= 0
+//@     decreases remaining(d)
+//
+//@ func (*stanza.Node).UnmarshalXML(x, d, start) (err)
+//@   requires x != nil && atElement(d, start)
+//@   ensures [C02.consume.node] err == nil ==> consumed(d)
+//@   ensures [C02.total.node]   err != nil ==> count(DecodeFailed) > old(count(DecodeFailed))
+//@   assigns *x, depth(d), openNames(d), remaining(d)
+//@   emits TokenRead, DecodedElement, DecodeFailed
+//@   loop 1:
+//@     invariant [C02.consume.node] depth(d) == old(depth(d))
+//@     invariant [C02.consume.node] openNames(d)[depth(d)] == start.Name
+//@     invariant [C02.consume.node] lowerNamesKept(d)
+//@     invariant [C02.total.node] count(DecodeFailed) == old(count(DecodeFailed))
+//@     invariant remaining(d) >= 0
+//@     decreases remaining(d)
